@@ -206,5 +206,10 @@ fn main() {
     if args.part_on("big") {
         big_for!(&mut st, args, Tok, ZTok, u32);
     }
+    if args.part_on("fat") && args.flavour_on("FatTok") {
+        // 130 x 512 B = 65 KiB, 144 x 512 B = 72 KiB: above any 64 KiB threshold, every element tracked
+        tbl_flatten_fat!(do_flatten; &mut st, args, vkit::FatTok);
+        tbl_unflatten_fat!(do_unflatten; &mut st, args, vkit::FatTok);
+    }
     st.finish();
 }
